@@ -125,10 +125,13 @@ BODY_OPS: dict[str, tuple[str, tuple[str, ...], tuple[str, ...]]] = {
     "Fv": ("{% for i in v %}({{ i }}){% endfor %}", ("v",), ()),
     "Fw": ("{% for i in w %}({{ i }}){% endfor %}", ("w",), ()),
     # the caller's loop objects: forloop of an enclosing for, parentloop seen from the body's own
-    # loop, tablerowloop of an enclosing tablerow
+    # loop (control), tablerowloop of an enclosing tablerow, and forloop.parentloop read at the top
+    # level of the body (inside `render ... for` forloop is the render's own loop; its parentloop
+    # must not be the caller's enclosing loop: "sees only its explicit arguments, its bound
+    # variable and global data")
     "FL": (
         "{{ forloop.index }}{% for i in arr limit: 1 %}^{{ forloop.parentloop.index }}{% endfor %}"
-        "{{ tablerowloop.col }}",
+        "{{ tablerowloop.col }}/{{ forloop.parentloop.index }}-{{ forloop.parentloop.length }}",
         ("forloop",),
         (),
     ),
